@@ -15,12 +15,11 @@ RULE = ('first reads from a request grammar (7 methods, 0-8 headers mixing stand
         'mutations, bad version, missing separators, Content-Length non-numeric/overflowing/>=2^32, non-UTF-8, NULs); non-trivial = accepted with '
         '>= 2 headers or a body, or refused by something other than the method check; distinct by canonical JSON')
 ASSUMPTIONS = ['the head arrives within the first read of <= 1024 bytes (C06 treats other segmentations)',
-               'custom (non-registry) header names are compared byte-exactly by `Headers::get`; a request does not spell one custom name in two letter cases (known reading, DESIGN 6.0)',
                'the connection ends after the scripted bytes (a body cut short closes the session)']
 STD = ['Host', 'Accept', 'Content-Type', 'Connection', 'User-Agent', 'Cookie', 'Authorization', 'Origin', 'TE', 'If-None-Match', 'Accept-Encoding', 'Upgrade-Insecure-Requests']
 CUS = ['X-A', 'x-b', 'X-Request-Id', 'Foo', 'X-Forwarded-For']
 METHODS = ['GET', 'PUT', 'POST', 'PATCH', 'DELETE', 'HEAD', 'OPTIONS']
-NAMES = [x for x in CUS + ['Host', 'host', 'Content-Length', 'content-length', 'Nope']]
+NAMES = [x for x in CUS + [c.upper() for c in CUS[:3]] + [c.lower() for c in CUS[2:]] + ['x-a', 'Host', 'host', 'HOST', 'hOsT', 'Content-Length', 'content-length', 'Nope']]
 BUF = 1024
 PAYLOAD_LIMIT = 1 << 32
 
@@ -44,7 +43,7 @@ def wellformed(rng):
         r = rng.random()
         if r < 0.35: hs.append((recase(rng, rng.choice(STD)), hval()))
         elif r < 0.6: hs.append((recase(rng, rng.choice(all_std())), hval()))      # any name of the source table, any case
-        else: hs.append((rng.choice(CUS), hval()))
+        else: hs.append((recase(rng, rng.choice(CUS)), hval()))          # names outside the table: any case as well, so one name comes in several spellings
     if body or rng.random() < 0.2:
         cl = str(len(body))
         if rng.random() < 0.1: cl = '0' * rng.choice([1, 3, 8, 12, 25]) + cl          # 1*DIGIT: any number of leading zeros
@@ -96,6 +95,7 @@ def corpus():
     W = [b'POST /x HTTP/1.1\r\nContent-Length: abc\r\n\r\nabc',                       # was: panic
          b'POST /x HTTP/1.1\r\nContent-length: 3\r\n\r\nabc',                          # was: body ignored
          b'GET /x HTTP/1.1\r\nX-Foo: a\r\nX-Foo: b\r\n\r\n',                           # was: last value only
+         b'GET /x HTTP/1.1\r\nx-a: 1\r\nFoo: z\r\nX-A: 2\r\nfoo: y\r\n\r\n',                      # was: two entries, and get("X-A") = "2"
          b'GET /%FF HTTP/1.1\r\n\r\n',                                                 # was: path.str() panics
          b'GET /x',                                                                    # was: unwrap panic
          b'GET /x HTTP/1.1\r\nHost: h\r\n\r\n',                                        # was: get("Host") = None
@@ -175,7 +175,9 @@ def spec_parse(first, more):
         if not (is_utf8(name) and is_utf8(value)): return ('refuse',)
         key = std_lower().get(name.decode().lower())
         if key is not None: std[key] = std[key] + b', ' + value if key in std else value
-        else: custom[name] = custom[name] + b', ' + value if name in custom else value
+        else:
+            lname = name.lower()          # field names are case-insensitive (RFC 9110 5.1), whether the framework has a table entry for them or not
+            custom[lname] = custom[lname] + b', ' + value if lname in custom else value
         pos = l.end()
     rest = first[pos:]
     payload = None
@@ -214,10 +216,9 @@ def spec_check(case, out):
         if sorted(out['std']) != v['std']: return f'standard headers: handlers see {sorted(out["std"])!r}, the wire denotes {v["std"]!r}'
         for nm, got in out['get']:
             n = unhx(nm)
-            want = v['custom'].get(n)
+            want = v['custom'].get(n.lower())
             if want is None:
-                # `get` finds a standard header by its canonical or lower-case spelling
-                key = next((var for var, canon, low in std_table() if n.decode() in (canon, low)), None)
+                key = next((var for var, canon, low in std_table() if n.decode().lower() == low), None)
                 want = dict((k, unhx(val)) for k, val in v['std']).get(key) if key else None
             if got != (hx(want) if want is not None else None): return f'get({n!r}) = {got!r}, the wire denotes {want!r}'
     else:
